@@ -10,6 +10,8 @@ func vNondetBool() bool         { return vsched.NondetBool() }
 func vNondetUint8() uint8       { return vsched.NondetUint8() }
 func vNondetString() string     { return vsched.NondetString() }
 func vAssume(c bool)            { vsched.Assume(c) }
+func vPrologueEnd()             {}
+func vLibGoroutinesAlive() int  { return vsched.LibGoroutinesAlive() }
 func vAssert(id string, c bool) { vsched.Assert(id, c) }
 func vReach(id string)          { vsched.Reach(id) }
 func vAtQuiescence(f func())    { vsched.AtQuiescence(f) }
